@@ -166,6 +166,7 @@ class State(object):
         self.effects = []
         self.counter = [0]
         self.narrow = {}
+        self.iter_uses = []
 
     def copy(self):
         s = State()
@@ -177,6 +178,7 @@ class State(object):
         s.effects = list(self.effects)
         s.counter = self.counter
         s.narrow = dict(self.narrow)
+        s.iter_uses = list(self.iter_uses)
         return s
 
     def alloc(self, rec):
@@ -231,8 +233,9 @@ class ListVal(object):
 class Outcome(object):
 
     def __init__(self, prod, status, value, nodes, conds, effects, raised,
-                 narrow=None):
+                 narrow=None, iter_uses=None):
         self.narrow = narrow or {}
+        self.iter_uses = iter_uses or []
         self.prod = prod
         self.status = status      # 'ok' | 'raise'
         self.value = value        # resolved value of p[0] (None if unset)
@@ -297,7 +300,9 @@ class Interp(object):
                     nodes.append(self.resolve(Ref(oid), s, cache))
             outs.append(Outcome(prod, status, value, nodes, s.conds,
                                 s.effects, val if status == 'raise' else
-                                None, dict(s.narrow)))
+                                None, dict(s.narrow),
+                                [(self.resolve(v, s, cache), ln, what)
+                                 for v, ln, what in s.iter_uses]))
         return outs
 
     def err(self, node, msg):
@@ -539,6 +544,9 @@ class Interp(object):
             self.err(stmt, 'append/extend on a non-list value %r' % (obj,))
         rec = s.mut(obj)
         rec.parts.append(('item' if meth == 'append' else 'splice', arg))
+        if meth == 'extend':
+            s.iter_uses.append((arg, getattr(stmt, 'lineno', 0),
+                                'extend'))
 
     def do_setpos(self, call, s, obj):
         obj = self.deref_slot(obj, s)
@@ -816,6 +824,8 @@ class Interp(object):
             b = self.deref_slot(b, s)
             if isinstance(node.op, ast.Add) and (
                     self.is_listlike(a, s) or self.is_listlike(b, s)):
+                s.iter_uses.append((a, node.lineno, 'list +'))
+                s.iter_uses.append((b, node.lineno, 'list +'))
                 ref = s.alloc(ListRec(None, [('splice', a), ('splice', b)]))
                 out.append((s, ref))
             elif isinstance(a, Const) and isinstance(b, Const) and \
@@ -839,6 +849,39 @@ class Interp(object):
                 return True
             return any(k[0] == 'list' for k in kinds)
         return False
+
+    def e_BoolOp(self, node, st):
+        """`x or <default>`: x when it is not None (an empty list is
+        replaced by an equal empty default), else the default"""
+        if not isinstance(node.op, ast.Or) or len(node.values) != 2:
+            self.err(node, 'unsupported boolean expression')
+        out = []
+        for s, a in self.eval(node.values[0], st):
+            a = self.deref_slot(a, s)
+            v = self.is_none(a, s)
+            if v == FALSE:
+                out.append((s, a))
+            elif v == TRUE:
+                out.extend(self.eval(node.values[1], s))
+            else:
+                s1 = s.copy()
+                s1.conds.append((ast.unparse(node.values[0]) + ' is None',
+                                 False))
+                if isinstance(a, Slot):
+                    s1.narrow[a.idx] = s1.narrow.get(a.idx, ()) + (
+                        ('none', False),)
+                    a1 = Slot(a.idx, a.sym, s1.narrow[a.idx])
+                else:
+                    a1 = a
+                out.append((s1, a1))
+                s2 = s.copy()
+                s2.conds.append((ast.unparse(node.values[0]) + ' is None',
+                                 True))
+                if isinstance(a, Slot):
+                    s2.narrow[a.idx] = s2.narrow.get(a.idx, ()) + (
+                        ('none', True),)
+                out.extend(self.eval(node.values[1], s2))
+        return out
 
     def e_Subscript(self, node, st):
         if isinstance(node.value, ast.Name) and node.value.id == 'p':
@@ -926,6 +969,14 @@ class Interp(object):
         if isinstance(f, ast.Name) and f.id in (
                 'ProductionError', 'ECMASyntaxError'):
             return [(st, Opaque(ast.unparse(node)))]
+        if isinstance(f, ast.Name) and f.id in ('list', 'tuple') and \
+                len(node.args) == 1 and not node.keywords:
+            out = []
+            for s, v in self.eval(node.args[0], st):
+                v = self.deref_slot(v, s)
+                s.iter_uses.append((v, node.lineno, f.id + '()'))
+                out.append((s, s.alloc(ListRec(None, [('splice', v)]))))
+            return out
         self.err(node, 'unsupported call')
 
     def do_setattr(self, node, st):
